@@ -102,7 +102,12 @@ func (P) Gen(rng *sim.Rng, tier string) *harness.Case {
 				}
 			default:
 				if ticks {
-					ops = append(ops, harness.Op{K: "tick", N: rng.U64Range(0, 2000)})
+					if rng.Chance(0.25) {
+						// clock fault: the wall clock is stepped back while entries may be in flight
+						ops = append(ops, harness.Op{K: "back", N: rng.U64Range(1, 5000)})
+					} else {
+						ops = append(ops, harness.Op{K: "tick", N: rng.U64Range(0, 2000)})
+					}
 				}
 			}
 		}
@@ -247,6 +252,11 @@ func (P) Exec(c *harness.Case) *harness.Outcome {
 		case "tick":
 			env.Clock.AdvanceMs(op.N)
 			o.SimMs += op.N
+		case "back":
+			if d := op.N * 1e6; d < env.Clock.NowNs() {
+				env.Clock.SetNs(env.Clock.NowNs() - d)
+				o.Fault("clock_stepped_back")
+			}
 		case "exit":
 			if op.E < 0 || op.E >= len(ents) || ents[op.E] == nil || !ents[op.E].live {
 				continue
